@@ -262,6 +262,24 @@ def scenarios(fam, ref):
                     return res
                 return run
             out.append(('uniform cubic %d cells' % ncells, mk()))
+
+        def cell_edges(mod, ctx):
+            # float-only: evaluation points computed as k * dx on a grid with dx = 0.1 (quotients that round to whole numbers)
+            if not getattr(ctx, 'float_mode', False):
+                return []
+            rng = np.random.RandomState(5)
+            res = []
+            for (xmin, dx, n) in ((0.0, 0.1, 10), (-0.7, 0.1, 14), (0.3, 0.7, 9)):
+                kn = np.array([xmin, xmin + dx * n, dx, n])
+                c = rng.rand(n + 3)
+                for k in range(n + 1):
+                    for x in (k * dx + xmin, xmin + k * dx, (xmin / dx + k) * dx):
+                        if x < xmin or x > kn[1]:
+                            continue
+                        sp, off = mod.cu_find_span(kn[0], kn[1], kn[2], x, n)
+                        res += [sp, off, mod.cu_eval_spline_1d_scalar(x, kn, 3, c, 0), mod.cu_eval_spline_1d_scalar(x, kn, 3, c, 1)]
+            return res
+        out.append(('float: uniform cubic kernels at points k*dx', cell_edges))
     elif fam == 'init':
         def run(mod, ctx):
             r, q, zz, v = [SReal(z3.Real(n)) for n in ('r', 'q', 'z', 'v')]
@@ -349,6 +367,35 @@ def scenarios(fam, ref):
                     return res
                 return run
             out.append(('advection kernels (%s splines)' % ('uniform cubic' if cub else 'general'), mk()))
+        # get_lagrange_vals: stencil shifts of either sign up to more than two z periods away (i - s from -2 nz - 1 to 2 nz)
+        for cub in (True, False):
+            def mk3(cub=cub):
+                def run(mod, ctx):
+                    from lib import splineoracle as SO
+                    fm = getattr(ctx, 'float_mode', False)
+                    karr = (lambda vs: np.array([float(v) for v in vs])) if fm else numenv.karr
+                    ncells = 7
+                    if cub:
+                        kn = karr([Fr(0), Fr(7), Fr(1), ncells])
+                    else:
+                        kn = karr(SO.math_knots([Fr(i) for i in range(ncells + 1)], 3, False))
+                    c = sym_vec('c', ncells + 3)
+                    if fm:
+                        c = np.array(c, dtype=float)
+                    nz, nq = 4, 2
+                    shifts = np.array([-7, -5, -1, 0, 2, 6, 9, 10], dtype=np.int64)
+                    qv = karr([Fr(1, 3), Fr(5, 2)])
+                    ths = karr([Fr(k, 4) - 1 for k in range(len(shifts))])
+                    res = []
+                    for i0 in (1, 3):
+                        vals = np.zeros((nz, nq, len(shifts))) if fm else np.empty((nz, nq, len(shifts)), dtype=object)
+                        if not fm:
+                            vals[...] = K(0)
+                        mod.get_lagrange_vals(i0, shifts, vals, qv, ths, kn, 3, c, cub)
+                        res += list(vals.ravel())
+                    return res
+                return run
+            out.append(('stencil values along z (%s splines)' % ('uniform cubic' if cub else 'general'), mk3()))
         # poloidal steps (explicit and implicit) and get_lagrange_vals: concrete potential whose feet leave through both radial
         # boundaries, the 2-D spline of f symbolic, both boundary modes
         for cub in (True, False):
